@@ -190,7 +190,7 @@ func (v *Value) CompareAndSwap(old, new any) (swapped bool) {
 
 	// A nil old value only says that nothing is expected to be stored yet.
 	if old != nil && !sameType(old, new) {
-		panic("sync/atomic: compare and swap of inconsistently typed values into Value")
+		panic("sync/atomic: compare and swap of inconsistently typed values")
 	}
 
 	if v.v != old {
